@@ -1574,8 +1574,8 @@ impl RustGenerator {
             }
             Instruction::GetArrayElem(arr, idx, elem_ty) => {
                 let dest = self.reg_name(dst)?;
-                let arr_expr = self.word0_expr(arr)?;
-                // the index may be a tuple/record field (an address): use the element it points to
+                // the array and the index may be tuple/record fields (addresses): use the elements they point to
+                let arr_expr = self.scalar_word_expr(func, arr)?;
                 let idx_expr = self.scalar_word_expr(func, idx)?;
                 let elem_words = elem_ty.word_size() as usize;
                 writer.line("{")?;
@@ -1612,8 +1612,8 @@ impl RustGenerator {
                 writer.line("}")?;
             }
             Instruction::SetArrayElem(arr, idx, value, elem_ty) => {
-                let arr_expr = self.word0_expr(arr)?;
-                // the index may be a tuple/record field (an address): use the element it points to
+                // the array and the index may be tuple/record fields (addresses): use the elements they point to
+                let arr_expr = self.scalar_word_expr(func, arr)?;
                 let idx_expr = self.scalar_word_expr(func, idx)?;
                 let elem_words = elem_ty.word_size() as usize;
                 let value_expr = self.context_value_slice_expr(func, value, *elem_ty)?;
